@@ -70,6 +70,12 @@ CLAIMED["C35"] = dict(
     note="Trusted: z3, the transcription of the GDB manual in ref/rsp.py, the proxy engine (every path cross-checked concretely on the unmodified code), the source-level f-string conversion of rsp_pack (symx/fstr.py), an exhaustively validated int(s,16) model. The fake socket and the single-threaded queue model (unsatisfiable wait = timeout) are assumptions; real thread interleavings, queue.Queue blocking, stale/duplicate acks, run-length encoding and longer payloads are outside the claim.",
     technique=TECH)
 
+CLAIMED["C31"] = dict(
+    level="model_checking", design="§4 C31",
+    text="For every enumerated expression in the supported syntax ('' + all ASTs of size <=3 (thorough <=4) over 5 atoms + 150 (1500) seeded samples of sizes 4..6 (5..7) over 27 atoms) the real parser, derivative construction and compile() build the DFA, and the solver proves: (a) scanner.pick_transition implements the table for every state and every character 0..255; (b) for ALL strings up to length 6 (thorough 8) over 0..255, table acceptance of every prefix equals membership in the expression's language (ref/regexsem.py) and the error state is dead; (c) scan()/Scanner.scan() produce exactly the maximal-munch, first-definition-wins tokenisation of all strings of length 4 (5).",
+    note="String dimension fully symbolic; expression dimension enumerated / sampled by VERIF_SEED. regexsem is validated against re.fullmatch on concrete strings in every job (self-test, not deciding). The compositional step (table semantics vs. the real walker) is proven per table. A compile() that does not finish in 60 s is a violation. Outside: negated classes (rejected by ppci), code points > 255, nullable scanner tokens, codegen text output.",
+    technique=TECH)
+
 NOT_APPLICABLE = {
     "C04": "property is about native execution of whole gcc/ppci-compiled programs; no x86-64 semantics model is in reach and running binaries is enumeration of concrete runs, not solver-based checking",
     "C06": "dataflow property over uninterpreted instruction semantics: a checker would be tag propagation in which a solver decides nothing",
